@@ -1,5 +1,6 @@
 import SoxrModel.Cr.Stream
 import SoxrModel.Cr.EarlyRat
+import SoxrModel.Cr.Lift
 import Mathlib.Algebra.Order.Floor.Semiring
 /-!
 # C03 Output length: N frames in give exactly `owed N` out, then none
@@ -180,6 +181,70 @@ theorem never_early_round {α : Type} (K : Kern α) (z : α) (owed : Nat → Nat
         rw [le_div_iff₀ hpos]; nlinarith
       linarith
   exact ⟨hq, Nat.le_floor hq⟩
+
+/-- the engine `_soxr_init` leaves behind for a plan, in the count model -/
+def freshEng (lp : List LStage) : Eng := (DEng.fresh () (lp.map LStage.toPlan)).toEng
+
+theorem freshEng_fresh (lp : List LStage) (hwf : ∀ x ∈ lp, StageWF x.cfg x.s0) (hne : lp ≠ []) : Fresh (freshEng lp) := by
+  refine ⟨rfl, rfl, ⟨rfl, ?_, ?_⟩⟩
+  · intro st hst
+    simp only [freshEng, DEng.toEng, DEng.fresh, List.map_map, List.mem_map] at hst
+    obtain ⟨x, hx, rfl⟩ := hst
+    exact hwf x hx
+  · simp only [freshEng, DEng.toEng, DEng.fresh, List.map_map]
+    intro h
+    exact hne (List.map_eq_nil_iff.mp h)
+
+/-- **Nothing early, for every history of the count model.**  The count model is what the per-call correspondence ties to the
+    code; every one of its streaming histories is the shadow of a history on samples (`streams_lift`), so `never_early_round`
+    speaks about it: for a plan meeting the decidable hypotheses (the post-context clause included) the `D` frames delivered for
+    the `N` accepted never exceed `⌊N/rate + ½⌋`. -/
+theorem never_early_round_counts (lp : List LStage) (hwf : ∀ x ∈ lp, StageWF x.cfg x.s0) (he : PlanEarlyOK lp) (hlat : PlanLatOK false lp)
+    (hpost : rateOf (lp.map tstage) / 2 ≤ 1 + offsetOf (lp.map tstage) + margOf lp) (hpos : 0 < rateOf (lp.map tstage)) (hne : lp ≠ [])
+    (ops : List StreamOp) (N D : Nat) (e' : Eng) (hs : Streams (freshEng lp) ops N D e') :
+    D ≤ ⌊(N : ℚ) / rateOf (lp.map tstage) + 1 / 2⌋₊ := by
+  have hf := freshEng_fresh lp hwf hne
+  let K : Kern Unit := { eval := fun _ _ _ _ _ => () }
+  obtain ⟨F', D', d', hrun, hF, hD, hd'⟩ := streams_lift K () (fun _ => 0) ops _ N D e' (DEng.fresh () (lp.map LStage.toPlan)) rfl hf.str hs
+  have hfl : d'.fl = false := by
+    have := (streams_counters ops _ N D e' hf.str hs).1.fl
+    rw [← hd'] at this; exact this
+  have := (never_early_round K () (fun _ => 0) lp hwf he hlat hpost hpos (liftOps () ops) F' D' d' hrun hfl).2
+  rw [hF, hD] at this
+  exact this
+
+/-- the ceil bound, likewise for every history of the count model -/
+theorem never_early_counts (lp : List LStage) (hwf : ∀ x ∈ lp, StageWF x.cfg x.s0) (he : PlanEarlyOK lp) (hlat : PlanLatOK false lp)
+    (hne : lp ≠ []) (ops : List StreamOp) (N D : Nat) (e' : Eng) (hs : Streams (freshEng lp) ops N D e') :
+    1 ≤ D → ((D : ℚ) - 1) * rateOf (lp.map tstage) < N := by
+  have hf := freshEng_fresh lp hwf hne
+  let K : Kern Unit := { eval := fun _ _ _ _ _ => () }
+  obtain ⟨F', D', d', hrun, hF, hD, hd'⟩ := streams_lift K () (fun _ => 0) ops _ N D e' (DEng.fresh () (lp.map LStage.toPlan)) rfl hf.str hs
+  have hfl : d'.fl = false := by
+    have := (streams_counters ops _ N D e' hf.str hs).1.fl
+    rw [← hd'] at this; exact this
+  have := (never_early K () (fun _ => 0) lp hwf he hlat (liftOps () ops) F' D' d' hrun hfl).1
+  rw [hF, hD] at this
+  exact this
+
+/-- **Total is exact, for every history — no never-early hypothesis.**  A plan that meets the decidable hypotheses the driver
+    evaluates on every exported plan (`StageWF`, `PlanEarlyOK`, `PlanLatOK false`, the post-context clause); the engine's `owed`
+    not below the exact rounding `⌊N/rate + ½⌋`.  The freshly initialised resampler is streamed through ANY history that accepts
+    `N` frames and delivers `D`, end-of-input is signalled, any requests follow: the stream delivers
+    `D + min(owed N − D, Σ requests)` — exactly `owed N` once enough has been requested. -/
+theorem total_exact_every_history (num : Num) (lp : List LStage) (hwf : ∀ x ∈ lp, StageWF x.cfg x.s0) (he : PlanEarlyOK lp)
+    (hlat : PlanLatOK false lp) (hpost : rateOf (lp.map tstage) / 2 ≤ 1 + offsetOf (lp.map tstage) + margOf lp)
+    (hpos : 0 < rateOf (lp.map tstage)) (hne : lp ≠ [])
+    (howed : ∀ n : Nat, ⌊(n : ℚ) / rateOf (lp.map tstage) + 1 / 2⌋₊ ≤ num.owed n)
+    (a : Api) (ha : a.eng = freshEng lp) (e' : Eng) (ops : List StreamOp) (N D : Nat) (reqs : List Nat)
+    (hs : Streams a.eng ops N D e') :
+    let a1 : Api := { a with eng := e'.flush num.owed, flushing := true }
+    ∀ ods a2, Calls num a1 reqs ods a2 → D + ods.sum = min (num.owed N) (D + reqs.sum) := by
+  have hf : Fresh a.eng := by rw [ha]; exact freshEng_fresh lp hwf hne
+  have hearly : D ≤ num.owed N := by
+    rw [ha] at hs
+    exact le_trans (never_early_round_counts lp hwf he hlat hpost hpos hne ops N D e' hs) (howed N)
+  exact total_exact num a e' ops N D reqs hf hs hearly
 
 /-! ## non-vacuity: a concrete plan exported by the real planner (44100 → 48000, HQ) meets the hypotheses -/
 
